@@ -474,7 +474,7 @@ class ASTSimplifyMapper(ASTIdentityMapper):
 
             # Expand any inner Blocks.
             if isinstance(next_child, Block):
-                children_queue.extendleft(next_child.children)
+                children_queue.extendleft(reversed(next_child.children))
                 continue
 
             # Merge adjacent conditionals.
